@@ -897,4 +897,7 @@ def _force_trigger_tasks(
             # Trigger group start task.
             schd.pool.queue_or_trigger(jtask)
 
+    # The triggered tasks may be earlier than the rest of the pool: update
+    # the runahead limit before releasing tasks against it.
+    schd.pool.compute_runahead()
     schd.pool.release_runahead_tasks()
